@@ -53,6 +53,9 @@ func TestSim(t *testing.T) {
 	if *planFile == "" {
 		t.Skip("no plan")
 	}
+	// address-space limit: a runaway allocation loop must kill this worker, not the machine
+	lim := syscall.Rlimit{Cur: 12 << 30, Max: 12 << 30}
+	syscall.Setrlimit(syscall.RLIMIT_AS, &lim)
 	runtime.GOMAXPROCS(1)
 	debug.SetGCPercent(-1)
 	debug.SetMemoryLimit(6 << 30)
